@@ -152,7 +152,7 @@ def _extent(pts):
 def _rand_track(rng):
     n = rng.choice([2, 3, 3, 4, 5, 6, 7, 8, 9, 10, 11, 12, 12])
     style = rng.choice(["uniform", "uniform", "lattice", "lattice", "collinear", "dups", "revisit", "loop", "loop_lattice",
-                        "identical", "spike", "tiny", "large", "line_lattice", "loop_dups"])
+                        "identical", "spike", "tiny", "large", "line_lattice", "loop_dups", "map_fine", "map_fine"])
     U = lambda: round(rng.uniform(0, 10), 3)
     if style == "uniform":
         pts = [[U(), U()] for _ in range(n)]
@@ -199,6 +199,13 @@ def _rand_track(rng):
         if n >= 3:
             j = rng.randrange(1, n - 1)
             pts[j] = [rng.choice([-1.0, 1.0]) * rng.uniform(15, 40) + (0 if rng.random() < 0.5 else n), pts[j][1]]
+    elif style == "map_fine":
+        # realistic magnitudes: projected map coordinates of about a million metres, fixes a few centimetres apart
+        # with centimetre noise (tolerances of millimetres to centimetres follow from the extent)
+        x0, y0 = rng.choice([(904000.0, 6435000.0), (3500000.0, 5600000.0), (652000.0, 6862000.0)])
+        a = rng.uniform(0, math.pi)
+        pts = [[round(x0 + 0.05 * i * math.cos(a) + rng.uniform(-0.02, 0.02), 4),
+                round(y0 + 0.05 * i * math.sin(a) + rng.uniform(-0.02, 0.02), 4)] for i in range(n)]
     elif style == "tiny":
         pts = [[1.0 + round(rng.uniform(0, 1e-3), 9), 2.0 + round(rng.uniform(0, 1e-3), 9)] for _ in range(n)]
     else:  # large
@@ -312,6 +319,24 @@ def run_case(case, ctx):
             r3["sig"], r3["nt"] = res["sig"], res["nt"]
             return r3
         res["cls"] = list(res["cls"]) + ["history_resimplified"]
+        if out.size() >= 3:
+            # ... and a PIECE of the output of an earlier simplification (it carries whatever that run left on it),
+            # by both algorithms
+            m_ = out.size()
+            i_ = 1 if m_ >= 4 else 0
+            j_ = m_ - 1 if i_ else m_ - 2
+            piece = M.call(out.extract, i_, j_) if (len(case["pts"]) % 2) else M.call(lambda: out[i_:j_ + 1])
+            if not M.is_raised(piece) and piece.size() == j_ - i_ + 1 and piece.size() >= 2:
+                pts_pc = [[piece.getObs(k).position.getX(), piece.getObs(k).position.getY()] for k in range(piece.size())]
+                for mode6 in (case["mode"], other):
+                    r6, _, _ = _judge({"pts": pts_pc, "tol": case["tol"] * 2.0, "mode": mode6, "style": case.get("style"),
+                                       "_nested": 1}, ctx, piece)
+                    if r6["v"] == "violated":
+                        r6["witness"]["history"] = ("simplify() on a piece (%d..%d) of the output of an earlier simplify() "
+                                                    "(%s, tol %r)" % (i_, j_, case["mode"], case["tol"]))
+                        r6["sig"], r6["nt"] = res["sig"], res["nt"]
+                        return r6
+                res["cls"] = list(res["cls"]) + ["history_piece_of_output"]
     # derived input in which the same observation OBJECTS sit at several positions: a lap repeated by t + t, a loop
     # closed by t + t.extract(0, 0) -- repeated positions by construction
     npts = len(case["pts"])
